@@ -183,10 +183,15 @@ impl Domain {
             .collect()
     }
 
-    pub fn remove(&self) {
+    /// `scan_shm`: the ipc variants leave the management segment behind by design; the local
+    /// variants never touch /dev/shm (checked once per execution by `leftovers`), so the directory
+    /// scan is skipped for them
+    pub fn remove(&self, scan_shm: bool) {
         let _ = std::fs::remove_dir_all(&self.root);
-        for s in self.shm() {
-            let _ = std::fs::remove_file(format!("/dev/shm/{s}"));
+        if scan_shm {
+            for s in self.shm() {
+                let _ = std::fs::remove_file(format!("/dev/shm/{s}"));
+            }
         }
     }
 }
@@ -296,6 +301,12 @@ impl Harness for H {
 
 fn main() {
     iceoryx2::prelude::set_log_level(iceoryx2::prelude::LogLevel::Fatal);
+    // the process-local storages of the local variants are heap allocations of several 100 kB that
+    // are created and freed in every execution: keep them in the heap instead of mmap / trim cycles
+    unsafe {
+        libc::mallopt(libc::M_MMAP_THRESHOLD, 1 << 30);
+        libc::mallopt(libc::M_TRIM_THRESHOLD, 1 << 30);
+    }
     start_watchdog();
     seqx::main(H);
 }
